@@ -506,6 +506,146 @@ example : ∑ vs : Fin 3 → Cfg 1, (∏ b, bornMixed (fun _ => (1 : ℝ)) (vs b
 
 end batch
 
+/-! ### (d) SWAP through the `statistics` loop (late theorems)
+
+`C09_batch_mean_unbiased` is about ONE batch of i.i.d. rows.  `ObservableBase.statistics` draws `T = ⌈num_samples/B⌉` batches by
+threading the SAME `B` chains through the sampler (`Stats.drawsProg`).  Each chain evolves independently under a kernel that
+leaves `p` invariant (the batched program has the product law, `C05_batch_law`), so the product `p^{⊗B}` is invariant under every
+call (`QV.prod_invariant`): at every draw the `B` rows are again i.i.d. from `p`, every draw's batch mean has expectation
+`Re tr ρ̂_A²` (`C09_batch_mean_unbiased`), and by linearity over the draws (`C13_mean_stationary`; the draws are dependent, the
+chains continue) so has the mean that `statistics` reports.  No independence lemma beyond the product law of ONE call is needed:
+stationarity of the product measure is all `C13_mean_stationary` asks for. -/
+section statsLoop
+open QV.Stats Prog
+
+/-- what `SWAP.apply` returns on the batch with rows `vs`: entry `i` pairs row `i` with row `i − 1 mod B` (`C09_no_mutation`,
+`C09_batch_list_form`) -/
+noncomputable def swapBatch (S : ImpState ℝ n) (A : Fin n → Bool) {B : ℕ} (vs : Fin B → Cfg n) : List ℝ :=
+  List.zipWith (swapApply S A) (List.ofFn vs) (roll1 (List.ofFn vs))
+
+theorem swapBatch_length (S : ImpState ℝ n) (A : Fin n → Bool) {B : ℕ} (vs : Fin B → Cfg n) :
+    (swapBatch S A vs).length = B := by
+  simp [swapBatch, roll1_length]
+
+/-- **(d) generic.**  `S` represents `G` with sampling distribution `p` (a probability distribution); `B ≥ 2` chains whose
+single-chain `k`-step programs `stepK k` leave `p` invariant, batched as `stepKB k` with the product law; every chain started
+from `p`.  For every region `A`, `num_samples ≥ 1`, `burn_in`, `steps`, with `T = ⌈num_samples/B⌉` draws: (i) on every execution
+`statistics` returns the one-pass statistics of the `T·B` swap values, the sampler having been called with
+`k = [burn_in, steps, …, steps]`, and (ii) the expectation of the reported MEAN over the joint law of all `T` draws of all `B`
+chains is `Re tr ρ̂_A²`. -/
+theorem C09_statistics_unbiased_generic {S : ImpState ℝ n} {G : Op n} {p : Cfg n → ℝ} (h : Represents S G p)
+    (hp : ∑ σ, p σ = 1) (stepK : ℕ → Cfg n → Prog ℝ (Cfg n)) (B : ℕ)
+    (stepKB : ℕ → (Fin B → Cfg n) → Prog ℝ (Fin B → Cfg n))
+    (hlaw : ∀ k vs ws, (stepKB k vs).law ws = ∏ b, (stepK k (vs b)).law (ws b))
+    (hinv : ∀ k w, ∑ v, p v * (stepK k v).law w = p w)
+    (A : Fin n → Bool) (hB : 2 ≤ B) (ns nc burnIn steps T : ℕ) (hns : 1 ≤ ns) (hT : numTimeSteps ns B = .ok T)
+    (ow : Bool) (dflt : Fin B → Cfg n) :
+    (∀ (s₀ : Fin B → Cfg n) (sts : List (Fin B → Cfg n)), sts.length = T →
+        ∃ calls, obsStatistics (recEnv B sts dflt) (swapBatch S A) ⟨ns, nc, burnIn, steps, some s₀, ow⟩
+            = .ok (C13.onePass ((sts.map (swapBatch S A)).flatten), calls)
+          ∧ calls.map (·.k) = burnIn :: List.replicate (T - 1) steps)
+    ∧ ∑ vs₀ : Fin B → Cfg n, (∏ b, p (vs₀ b)) *
+          (drawsProg stepKB burnIn steps T 0 vs₀).expect (fun sts => C13.mean ((sts.map (swapBatch S A)).flatten))
+        = (purity A (normalised G)).re := by
+  have hinvB : ∀ k ws, ∑ vs : Fin B → Cfg n, (∏ b, p (vs b)) * (stepKB k vs).law ws = ∏ b, p (ws b) := by
+    intro k ws
+    simp only [hlaw]
+    exact prod_invariant p (fun v w => (stepK k v).law w) (hinv k) ws
+  obtain ⟨T', hT', _, _, hrec, hexp⟩ := C13.C13_mean_stationary stepKB (fun vs => ∏ b, p (vs b)) hinvB
+    (swapBatch S A) B (by omega) (swapBatch_length S A) ns nc burnIn steps hns ow dflt
+  have hTT : T' = T := by rw [hT] at hT'; exact (Except.ok.inj hT').symm
+  subst hTT
+  refine ⟨hrec, hexp.trans ?_⟩
+  have hm : ∀ vs : Fin B → Cfg n, C13.mean (swapBatch S A vs)
+      = (List.zipWith (swapApply S A) (List.ofFn vs) (roll1 (List.ofFn vs))).sum / B := by
+    intro vs
+    rw [C13.mean, swapBatch_length]
+    rfl
+  simp only [hm]
+  exact C09_batch_mean_unbiased h hp A B hB
+
+variable {hid a : ℕ}
+
+/-- **(d) the mean of `SWAP` reported by `statistics` is unbiased for the purity — the three RBM states, no hypotheses on the
+parameters.**  `B ≥ 2` chains started i.i.d. from the state's exact sampling distribution (the caller's `initial_state`), the
+loop's sampler calls being the model's batched block-Gibbs program `gibbsStepsB k` (C05) with `k = burn_in` once and `k = steps`
+afterwards, `T = ⌈num_samples/B⌉` draws: the expectation of the reported mean is `Re tr ρ̂_A²` for the complex wavefunction, the
+positive wavefunction and the purification density matrix, every region `A`.  (`B = 1` is excluded for the reason
+`C09_single_row_biased` shows.)  NOT claimed: anything about a start that is not stationary, or about the reported variance /
+standard error. -/
+theorem C09_statistics_unbiased (am ph : RBM ℝ n hid) (qa qp : PRBM ℝ n hid a) (A : Fin n → Bool) (B : ℕ) (hB : 2 ≤ B)
+    (ns burnIn steps T : ℕ) (hns : 1 ≤ ns) (hT : numTimeSteps ns B = .ok T) :
+    let psiC : Cfg n → C ℝ := fun σ => Wave.psiCplx am ph (fun j => bit (σ j))
+    let psiP : Cfg n → C ℝ := fun σ => Wave.psiPos am (fun j => bit (σ j))
+    let SM := ImpState.mixed (rbmRho qa qp) (rbmProb qa)
+    (∑ vs₀ : Fin B → Cfg n, (∏ b, bornPure psiC (vs₀ b)) *
+        (drawsProg (fun k => am.gibbsStepsB k) burnIn steps T 0 vs₀).expect
+          (fun sts => C13.mean ((sts.map (swapBatch (ImpState.pure psiC) A)).flatten))
+      = (purity A (normalised (dmPure psiC))).re)
+    ∧ (∑ vs₀ : Fin B → Cfg n, (∏ b, bornPure psiP (vs₀ b)) *
+        (drawsProg (fun k => am.gibbsStepsB k) burnIn steps T 0 vs₀).expect
+          (fun sts => C13.mean ((sts.map (swapBatch (ImpState.pure psiP) A)).flatten))
+      = (purity A (normalised (dmPure psiP))).re)
+    ∧ (∑ vs₀ : Fin B → Cfg n, (∏ b, bornMixed (rbmProb qa) (vs₀ b)) *
+        (drawsProg (fun k => qa.gibbsStepsB k) burnIn steps T 0 vs₀).expect
+          (fun sts => C13.mean ((sts.map (swapBatch SM A)).flatten))
+      = (purity A (normalised (dmMixed (rbmRho qa qp)))).re) := by
+  intro psiC psiP SM
+  have hst := fun k w => C08_born_stationary am ph qa k w
+  have hst0 := C08_born_stationary am ph qa 0 (fun _ => false)
+  have hstP := fun k w => C08_born_stationary am am qa k w
+  refine ⟨?_, ?_, ?_⟩
+  · exact (C09_statistics_unbiased_generic (C08_represents_pure psiC (fun σ => (C08_rbm_psi_ne_zero am ph σ).2))
+      hst0.2.2.2.1 (fun k => am.gibbsSteps k) B (fun k => am.gibbsStepsB k)
+      (fun k vs ws => (gibbsStepsB_law am qa k vs ws).1) (fun k w => (hst k w).1) A hB ns 0 burnIn steps T hns hT false
+      (fun _ _ => false)).2
+  · exact (C09_statistics_unbiased_generic (C08_represents_pure psiP (fun σ => (C08_rbm_psi_ne_zero am am σ).1))
+      hst0.2.2.2.2.1 (fun k => am.gibbsSteps k) B (fun k => am.gibbsStepsB k)
+      (fun k vs ws => (gibbsStepsB_law am qa k vs ws).1) (fun k w => (hstP k w).2.1) A hB ns 0 burnIn steps T hns hT false
+      (fun _ _ => false)).2
+  · exact (C09_statistics_unbiased_generic
+      (C08_represents_mixed (rbmRho qa qp) (rbmProb qa) (fun σ => (C08_rbm_rho_diag qa qp σ).1)
+        (fun σ => (C08_rbm_rho_diag qa qp σ).2.ne'))
+      hst0.2.2.2.2.2 (fun k => qa.gibbsSteps k) B (fun k => qa.gibbsStepsB k)
+      (fun k vs ws => (gibbsStepsB_law am qa k vs ws).2) (fun k w => (hst k w).2.2.1) A hB ns 0 burnIn steps T hns hT false
+      (fun _ _ => false)).2
+
+/-- non-vacuity: a concrete complex RBM state on two sites (`h = 3`), region `{0}`, 3 chains, 7 requested samples (= 3 draws),
+burn-in 5, 2 steps between draws: the expectation of the `SWAP` mean reported by `statistics` is the purity of site 0. -/
+example : let am : RBM ℝ 2 3 := ⟨fun i j => (i.val : ℝ) - j.val + 0.5, fun j => if j = 0 then -1.5 else 2,
+      fun i => if i = 0 then 0.7 else -0.3⟩
+    let ph : RBM ℝ 2 3 := ⟨fun i j => 0.25 * (i.val : ℝ) + j.val, fun j => if j = 0 then 1 else -2,
+      fun i => if i = 0 then -0.4 else 0.9⟩
+    let psi : Cfg 2 → C ℝ := fun σ => Wave.psiCplx am ph (fun j => bit (σ j))
+    let A : Fin 2 → Bool := fun j => j = 0
+    ∑ vs₀ : Fin 3 → Cfg 2, (∏ b, bornPure psi (vs₀ b)) *
+      (drawsProg (fun k => am.gibbsStepsB k) 5 2 3 0 vs₀).expect
+        (fun sts => C13.mean ((sts.map (swapBatch (ImpState.pure psi) A)).flatten))
+      = (purity A (normalised (dmPure psi))).re :=
+  (C09_statistics_unbiased _ _ (⟨fun _ _ => 0, fun _ _ => 0, fun _ => 0, fun _ => 0, fun _ => 0⟩ : PRBM ℝ 2 3 0)
+    ⟨fun _ _ => 0, fun _ _ => 0, fun _ => 0, fun _ => 0, fun _ => 0⟩ _ 3 (by norm_num) 7 5 2 3 (by norm_num) (by decide)).1
+
+/-- … and on the generic theorem's (i): the maximally mixed one-site state with the identity "sampler" (`ret`, which leaves every
+distribution invariant), two chains — hypotheses of `C09_statistics_unbiased_generic` are jointly satisfiable with a mixed state. -/
+example : ∑ vs₀ : Fin 2 → Cfg 1, (∏ b, bornMixed (fun _ => (1 : ℝ)) (vs₀ b)) *
+      (drawsProg (fun _ vs => (Prog.ret vs : Prog ℝ (Fin 2 → Cfg 1))) 0 0 2 0 vs₀).expect
+        (fun sts => C13.mean ((sts.map (swapBatch mixed1 (fun _ => true))).flatten)) = 1 / 2 := by
+  obtain ⟨hrep, hp, hpur, _⟩ := C09_single_row_biased
+  rw [← hpur]
+  refine (C09_statistics_unbiased_generic hrep hp (fun _ v => Prog.ret v) 2 (fun _ vs => Prog.ret vs) ?_ ?_ _ le_rfl
+    3 0 0 0 2 (by norm_num) (by decide) false (fun _ _ => false)).2
+  · intro k vs ws
+    simp only [Prog.law]
+    by_cases h : vs = ws
+    · subst h; simp
+    · obtain ⟨b, hb⟩ := Function.ne_iff.mp h
+      rw [if_neg h, eq_comm]
+      exact Finset.prod_eq_zero (Finset.mem_univ b) (by simp [hb])
+  · intro k w
+    simp [Prog.law]
+
+end statsLoop
+
 /-- non-vacuity: complex RBM state, region `{0}` of two sites -/
 example : let am : RBM ℝ 2 3 := ⟨fun i j => (i.val : ℝ) - j.val + 0.5, fun j => if j = 0 then -1.5 else 2,
       fun i => if i = 0 then 0.7 else -0.3⟩
